@@ -298,9 +298,12 @@ class NestedExtensionArray(ExtensionArray):
 
         argsort: np.ndarray | None = None
         if key.dtype.kind in "iu":
-            _, argsort = np.unique(key, return_index=True)
             np_mask = np.zeros(len(self), dtype=np.bool_)
             np_mask[key] = True
+            # Negative positions count from the end: normalise them, so that ordering
+            # the keys orders the target positions
+            key = np.where(key < 0, key + len(self), key)
+            _, argsort = np.unique(key, return_index=True)
             pa_mask = pa.array(np_mask)
         elif key.dtype.kind == "b":
             pa_mask = pa.array(key)
